@@ -378,6 +378,8 @@ def compile_policy(rng: random.Random) -> dict:
 def gen_opts(rng: random.Random, tier: str, n: int) -> dict:
     if tier == 'thorough' and n <= 3:
         lvl = rng.choice([1, 1, 2, 2, 3, 4])
+    elif tier == 'thorough' and n == 4:
+        lvl = rng.choice([1, 1, 2, 2, 3])
     else:
         lvl = rng.choice([1, 1, 2])
     return {'optimization_level': lvl,
